@@ -34,8 +34,53 @@ fn run_lossy<S: VF + LossyInto<D>, D: VF + LossyFrom<S>>(st: usize, a: u128, out
 }
 
 
+fn run_from_int<T: IntRaw, D: VF + From<T> + LossyFrom<T>>(st: usize, b: u128, outs: &mut Outs)
+where
+    T: Into<D>,
+{
+    let t = T::from_raw(b);
+    step!(st, outs, 0, "from", Out::V(D::from(t).raw()));
+    step!(st, outs, 1, "into", {
+        let d: D = t.into();
+        Out::V(d.raw())
+    });
+    step!(st, outs, 2, "lossy_from", Out::V(D::lossy_from(t).raw()));
+}
+fn run_int_from_fix<S: VF, T: IntRaw + From<S>>(st: usize, a: u128, outs: &mut Outs) {
+    step!(st, outs, 0, "from", Out::V(T::from(S::from_raw(a)).raw()));
+}
+fn run_int_lossy_fix<S: VF, T: IntRaw + LossyFrom<S>>(st: usize, a: u128, outs: &mut Outs) {
+    step!(st, outs, 0, "lossy_from", Out::V(T::lossy_from(S::from_raw(a)).raw()));
+}
+fn run_from_bool<D: VF + From<bool> + LossyFrom<bool>>(st: usize, b: u128, outs: &mut Outs) {
+    step!(st, outs, 0, "from", Out::V(D::from(b & 1 == 1).raw()));
+    step!(st, outs, 1, "lossy_from", Out::V(D::lossy_from(b & 1 == 1).raw()));
+}
+trait FloatBits {
+    fn fbits(self) -> u128;
+}
+impl FloatBits for f32 {
+    fn fbits(self) -> u128 {
+        self.to_bits() as u128
+    }
+}
+impl FloatBits for f64 {
+    fn fbits(self) -> u128 {
+        self.to_bits() as u128
+    }
+}
+fn run_float_from_fix<S: VF, T: FloatBits + From<S> + LossyFrom<S>>(st: usize, a: u128, outs: &mut Outs) {
+    step!(st, outs, 0, "from", Out::V(T::from(S::from_raw(a)).fbits()));
+    step!(st, outs, 1, "lossy_from", Out::V(T::lossy_from(S::from_raw(a)).fbits()));
+}
+
 pub fn run(st: usize, op: u16, lay2: u16, a: u128, b: u128, outs: &mut Outs) {
     match op {
+        FROM_INT => with_int_from!(lay2 as usize, T, D => run_from_int::<T, D>(st, b, outs)),
+        INT_FROM_FIX => with_fix_to_int_from!(lay2 as usize, S, T => run_int_from_fix::<S, T>(st, a, outs)),
+        INT_LOSSY_FIX => with_fix_to_int_lossy!(lay2 as usize, S, T => run_int_lossy_fix::<S, T>(st, a, outs)),
+        FROM_BOOL => with_bool_from!(lay2 as usize, D => run_from_bool::<D>(st, b, outs)),
+        FLOAT_FROM_FIX => with_float_from!(lay2 as usize, S, T => run_float_from_fix::<S, T>(st, a, outs)),
         CONV_FF | CMP_FF => with_pair!(lay2 as usize, S, D => run_pair::<S, D>(st, op, a, b, outs)),
         FROM_FF => with_from_pair!(lay2 as usize, S, D => run_from::<S, D>(st, a, outs)),
         _ => with_lossy_pair!(lay2 as usize, S, D => run_lossy::<S, D>(st, a, outs)),
